@@ -9,14 +9,15 @@ from . import c04, parsershape
 
 LEVEL = 'other'
 EXPLANATION = (
-    'Chunking independence is decided structurally: Tokenizer.feed is exactly a fold of feed_byte over its argument '
-    '(no per-call state, no early exit), Parser.feed/feed_byte are "tokenizer call then _decode" on every path, the '
-    'tokenizer fields have a closed set of writers (the two byte handlers and __init__), no method of either class '
-    'reads a clock, a global or anything but its fields/arguments/constants, the one-step transitions of feed_byte '
-    '(C04) preserve tokens already pending, and on every message queue in mido/ only append/extend/popleft are ever '
-    'applied (first-in first-out).  pending/__len__ return len of the very deque __iter__ pops from the left; '
-    'get_message returns the first popped message and None only from the empty case.  ParserQueue feeds and drains '
-    'its parser inside one lock region and touches it nowhere else.')
+    'R05.1: Tokenizer.feed is a fold of feed_byte, and the Parser - abstractly interpreted on one symbolic stream fed at once, '
+    'byte by byte, through the constructor, through parse/parse_all and cut at every offset, with pending/__len__/get_message/'
+    'iteration in between - hands out the same messages first-in first-out, pending() = number still retrievable, None exactly '
+    'when empty.  R05.2: no method of Tokenizer/Parser reads a clock, a global or anything but fields/arguments/constants, and the '
+    'one-step transitions of feed_byte (C04) make the state a function of the bytes alone and keep tokens already pending - the '
+    'induction step for arbitrary streams.  R05.3: tokenizer fields are written only by __init__ and the byte handlers reachable '
+    'from feed_byte; parser fields only by __init__.  R05.4/5: on every message queue in mido/ only append/extend/popleft are '
+    'applied.  R05.6: ParserQueue interpreted with queue and lock doubles - two put_bytes calls with a put in between give stream '
+    'order, poll/iterpoll drain FIFO then None, every parser step runs under the one lock created by __init__.')
 TRUSTED = ['midolint path enumeration and name resolution', 'collections.deque append/popleft semantics']
 ASSUMPTIONS = ['one thread per Parser (ParserQueue adds the lock)']
 
